@@ -94,9 +94,10 @@ func ParseAnnounce(r Request, v6Action bool, opts ParseOptions) (*bittorrent.Ann
 	ip := r.IP
 	ipProvided := false
 	ipbytes := r.Packet[84:ipEnd]
-	if opts.AllowIPSpoofing {
-		// Make sure the bytes are copied to a new slice.
-		copy(ip, net.IP(ipbytes))
+	if opts.AllowIPSpoofing && !net.IP(ipbytes).IsUnspecified() {
+		// Use the address supplied by the client, copied to a new slice.
+		// An all-zero address means "use the source address" (BEP 15).
+		ip = append(net.IP(nil), ipbytes...)
 		ipProvided = true
 	}
 	if !opts.AllowIPSpoofing && r.IP == nil {
